@@ -6,7 +6,7 @@ r = json.load(open(ROOT + "/audit/audit.json"))["results"]
 groups = collections.Counter(); alarms = collections.Counter()
 def grp(n):
     b = n.split("/")[-1]
-    for g in ("indepB", "indepC", "indep", "twin-of"):
+    for g in ("indepB", "indepC", "indepD", "indep", "twin-of"):
         if b.startswith(g): return g
     return "hand-made"
 for x in r:
